@@ -1,6 +1,7 @@
 package chk
 
 import (
+	"strings"
 	"go/ast"
 	"go/parser"
 	"go/token"
@@ -471,6 +472,15 @@ func (g *Graph) GErrNil(isNil bool, callPat string, checks ...HoleCheck) Guard {
 		c := g.resolveCall(other)
 		if c == nil {
 			return false
+		}
+		// client.IgnoreNotFound(err) != nil says err != nil (and more); it says nothing when it is nil
+		if fo, isF := g.Fn.Callee(c).(*types.Func); isF && fo.Name() == "IgnoreNotFound" && fo.Pkg() != nil && strings.HasSuffix(fo.Pkg().Path(), "controller-runtime/pkg/client") && len(c.Args) == 1 {
+			if isNil {
+				return false
+			}
+			if c = g.resolveCall(c.Args[0]); c == nil {
+				return false
+			}
 		}
 		return g.Fn.MatchWith(callPat, c, checks...) != nil
 	})
